@@ -18,11 +18,13 @@ type G struct {
 	canRun func() bool
 	what   string
 	held   []*Value // mutexes held (lockset)
+	rheld  []*Value // RWMutexes held for reading (protect reads only)
 }
 
 type mutexSt struct {
-	locked bool
-	owner  *G
+	locked  bool
+	owner   *G
+	readers int // sync.RWMutex: number of read locks held
 }
 
 func (ex *Exec) initSched() {
@@ -353,4 +355,53 @@ func (ex *Exec) wgCounter(p *Value) *int {
 		ex.wgs[p] = c
 	}
 	return c
+}
+
+// ---- sync.RWMutex: writers exclude everybody, readers exclude writers ----
+
+func (ex *Exec) rwLock(p *Value) {
+	if p == nil {
+		ex.rtPanic("invalid memory address or nil pointer dereference")
+	}
+	if ex.tr != nil && ex.trOn() {
+		ex.abort("sync.RWMutex in traced (model-checked) code is not modelled")
+	}
+	ex.yieldPoint()
+	st := ex.mutexOf(p)
+	ex.block(func() bool { return !st.locked && st.readers == 0 }, "rwmutex (write)")
+	st.locked = true
+	st.owner = ex.cur
+	ex.cur.held = append(ex.cur.held, p)
+}
+
+func (ex *Exec) rwRLock(p *Value) {
+	if p == nil {
+		ex.rtPanic("invalid memory address or nil pointer dereference")
+	}
+	if ex.tr != nil && ex.trOn() {
+		ex.abort("sync.RWMutex in traced (model-checked) code is not modelled")
+	}
+	ex.yieldPoint()
+	st := ex.mutexOf(p)
+	ex.block(func() bool { return !st.locked }, "rwmutex (read)")
+	st.readers++
+	ex.cur.rheld = append(ex.cur.rheld, p)
+}
+
+func (ex *Exec) rwRUnlock(p *Value) {
+	if p == nil {
+		ex.rtPanic("invalid memory address or nil pointer dereference")
+	}
+	st := ex.mutexOf(p)
+	if st.readers == 0 {
+		panic(&goPanic{V: Iface{T: types.Typ[types.String], V: "fatal error: sync: RUnlock of unlocked RWMutex"}, Runtime: true, Msg: "fatal error: sync: RUnlock of unlocked RWMutex"})
+	}
+	st.readers--
+	h := ex.cur.rheld
+	for i := len(h) - 1; i >= 0; i-- {
+		if h[i] == p {
+			ex.cur.rheld = append(h[:i:i], h[i+1:]...)
+			break
+		}
+	}
 }
